@@ -4,6 +4,7 @@ import (
 	"go/ast"
 	"go/token"
 	"go/types"
+	"golang.org/x/tools/go/cfg"
 	"strings"
 )
 
@@ -778,6 +779,8 @@ func c04LostUpdates(c *Ctx, rule string) {
 			}
 			// last store to a field of v, and last whole-value use of v, in the body
 			var lastStore, lastUse token.Pos
+			var storeStmts []ast.Node
+			var useIdents []ast.Node
 			pm := parentMap(rs.Body)
 			ast.Inspect(rs.Body, func(m ast.Node) bool {
 				id, ok := m.(*ast.Ident)
@@ -791,6 +794,9 @@ func c04LostUpdates(c *Ctx, rule string) {
 						for _, l := range as.Lhs {
 							// the right-hand side is evaluated before the store: only uses
 							// after the whole statement count
+							if l == ast.Expr(sel) {
+								storeStmts = append(storeStmts, as)
+							}
 							if l == ast.Expr(sel) && as.End() > lastStore {
 								lastStore = as.End()
 							}
@@ -806,6 +812,7 @@ func c04LostUpdates(c *Ctx, rule string) {
 						}
 					}
 				}
+				useIdents = append(useIdents, id)
 				if id.Pos() > lastUse {
 					lastUse = id.Pos()
 				}
@@ -816,7 +823,35 @@ func c04LostUpdates(c *Ctx, rule string) {
 			}
 			n++
 			seq++
-			c.Check(lastUse > lastStore, rule, fi.Obj.Name()+":fields stored on range copy `"+vid.Name+"` #"+itoa(seq)+" are used afterwards", rs.Pos(), "copy is passed on after the store",
+			okUse := lastUse > lastStore
+			if !okUse {
+				// positions say nothing about code expanded from a helper (it all sits at the call):
+				// ask the flow graph whether a whole-value use follows some store
+				fl := p.NewFlow(fi)
+				head := fl.loopHead(rs) // the next iteration has a fresh copy
+				for _, st := range storeStmts {
+					for _, sm := range fl.Find(func(x ast.Node) bool { return x == st }) {
+						for _, u := range useIdents {
+							target := u
+							if r, _ := fl.Reach(sm.Site.After(), func(x Site) bool {
+								found := false
+								if nd := x.Node(); nd != nil {
+									ast.Inspect(nd, func(y ast.Node) bool {
+										if y == target {
+											found = true
+										}
+										return !found
+									})
+								}
+								return found
+							}, false, PathQ{AvoidBlock: func(b *cfg.Block) bool { return head != nil && b == head }}); r {
+								okUse = true
+							}
+						}
+					}
+				}
+			}
+			c.Check(okUse, rule, fi.Obj.Name()+":fields stored on range copy `"+vid.Name+"` #"+itoa(seq)+" are used afterwards", rs.Pos(), "copy is passed on after the store",
 				"the loop stores into fields of `"+vid.Name+"`, which is a copy of the slice element, and never uses the copy afterwards: the update is lost and the sources keep their old attributes (conditional / dead / labels)")
 			return true
 		})
